@@ -460,6 +460,11 @@ func encodeDirection(c *codecCase, wire []byte, res *Result) string {
 		}
 		return fmt.Sprintf("Encode bytes differ from the reference at offset %d (got %#x, want %#x)", i, buf[i], wire[i])
 	}
+	// the caller's buffer is the caller's: it is used for something else now, and the message is encoded once more
+	// (what Encode writes are the message's fields, not what some earlier destination happens to hold)
+	for i := range buf {
+		buf[i] = 0x5a
+	}
 	// the destination is rarely fresh memory (the broker encodes straight into a ring buffer that has been used
 	// before): Encode must write every one of its Len() bytes
 	dirty := bytes.Repeat([]byte{0xa5}, c.Len+4)
@@ -681,6 +686,26 @@ func modCheck(c *codecCase, wire []byte, res *Result, kind string) {
 		}
 		fail(fmt.Sprintf("after %s, Encode bytes differ from the wire form of the new fields at offset %d (got %#x, want %#x)", how, i, buf[i], want[i]))
 		return
+	}
+	// a field changed after the message has been encoded once: the next Encode writes the new value
+	if pm, ok := dec.(*message.PublishMessage); ok && to.Q > 0 && !c.Auto {
+		for i := range buf {
+			buf[i] = 0x5a
+		}
+		pm.SetDup(to.Dup == 0)
+		again := make([]byte, c.Len)
+		n2, err2 := pm.Encode(again)
+		want2 := append([]byte(nil), want...)
+		want2[0] ^= 0x08
+		if err2 != nil || n2 != c.Len || !bytes.Equal(again, want2) {
+			fail(fmt.Sprintf("after %s, Encode, then SetDup(%v) and Encode again: the second packet is not the first with the DUP bit changed (n=%d err=%v first byte %#x)", how, to.Dup == 0, n2, err2, again[0]))
+			return
+		}
+		pm.SetDup(to.Dup == 1)
+		if n3, err3 := pm.Encode(buf); err3 != nil || n3 != c.Len || !bytes.Equal(buf, want) {
+			fail(fmt.Sprintf("after %s, the DUP flag set and reset: Encode does not give the packet of the fields (n=%d err=%v)", how, n3, err3))
+			return
+		}
 	}
 	// and the result decodes to the new fields
 	chk, _ := typeByName[to.Ty].New()
